@@ -19,7 +19,8 @@ EXPLANATION = (
     'looked up; (C11.5) parse_archive runs the build steps in dependency order; (C11.6) the address resolvers used for range '
     'targets of defined names unquote the sheet name.'
     ' (C11.4) is decided by interpreting build_defined_names on an abstract compiler: names for a constant cell, formula cells with and without cached value, cells holding 0 and "", a range are bound to the very objects of the model, names of missing cells are skipped; (C11.3) also: the same formula text on two sheets gives two formulas bound to their own sheets.'
-    ' (C11.7) the reference workbook loaded through Reader / parse_archive from a modelled openpyxl workbook with cached results: get_cell_value returns the cached results before evaluation, evaluation reproduces them in both orders.')
+    ' (C11.7) the reference workbook loaded through Reader / parse_archive from a modelled openpyxl workbook with cached results: get_cell_value returns the cached results before evaluation, evaluation reproduces them in both orders.'
+    " (C11.2) workbooks loaded with ignore lists end to end; two loads in one process; (C11.7) also formulas stored with layout, sheet titles with runs of blanks, names scoped to one sheet; (C11.8) the replacement openpyxl reader hands its parser every parameter openpyxl's own reader (read from the installed source) hands over.")
 NOT_DECIDED = ('the SpreadsheetML storage forms, shared-formula expansion and the patched worksheet reader (openpyxl '
                'behaviour), equality of values')
 TRUSTED = ['openpyxl cell attributes (.coordinate, .data_type, .value) and defined_names mapping', 'workbook scenarios: pandas storage of range arrays as row-major rows, numpy on Python numbers (IEEE results, 64-bit integer wrap), dateutil.parser.parse rejecting texts that are no dates, openpyxl address arithmetic, inspect.signature built from the FunctionDef']
